@@ -97,6 +97,14 @@ CLAIMED = {
          "a reply or cancel clears the request and stops the timer; losing the carrying pipe re-sends at once, or cancels when retry is off; pipes are re-queued only while open. 'Never sooner' (time) and liveness under fault sequences are not decided.",
          "Anchored in protocol/req/req.go functions (ANCHOR-MISSING fails closed).",
          "DESIGN.md 4/C04"),
+ "C05": ("static analysis: anchored shape rules over SSA of rep/respondent/xrep/xrespondent + E5 (alias-retained, modified-on-error, release-on-error)",
+         "Cooked contexts store, under the lock and from one queue entry, a private copy of the request's routing header and its arrival pipe; SendMsg returns ErrProtoState iff nothing is pending (no side effect), installs exactly the saved header, can queue only on the saved pipe's sendQ, clears the state and discards the reply when that pipe has gone; "
+         "raw sockets record the arrival pipe id as the first header word, route by the first header word (length-checked, stripped exactly once) through a comma-ok lookup to that pipe only, discard unknown ids and restore the header on every error return. Routing through device chains under concurrency follows from these per-hop invariants; it is not enumerated.",
+         "Anchored in the named functions of the four packages.", "DESIGN.md 4/C05"),
+ "C06": ("static analysis: anchored shape rules, natural-loop completeness of broadcast loops, E5 shared-queue rule, E10c capacity",
+         "SUB matches with bytes.HasPrefix(body, subscription) over all current subscriptions (true iff some prefix hit); the receiver visits every context under the lock and enqueues iff matches(m); unsubscribe keeps exactly the still-matching queued messages, evaluated after the removal; subscriptions are private copies; delivered messages are made unique; "
+         "PUB visits every pipe (no early exit) with Clone + non-blocking send, drops the new copy on overflow while SUB drops the oldest. Histories of subscribe/publish and overflow loss are not enumerated.",
+         "Anchored in protocol/sub and protocol/xpub.", "DESIGN.md 4/C06"),
 }
 
 NOT_YET = "check not built yet (work in progress; planned static rules in DESIGN.md section 4)"
